@@ -218,7 +218,7 @@ FAULT_SITES_ALL = ['s3:', 's3call:GetObject:retryable', 'stream:retryable', 'str
                    'fs:rename', 'fs:seek', 'fs:read', 'cb:queued', 'cb:progress', 'src:read', 'sink:write']
 
 
-def jobs_faults(tier, seed, want, names=None, sched=True, pairs=True, monitor_fs=False, extra=None):
+def jobs_faults(tier, seed, want, names=None, sched=True, pairs=True, monitor_fs=False, extra=None, deep_sites=()):
     """single fault at every site (seq + sched), pairs in small scenarios"""
     jobs = []
     bt = base_transfers()
@@ -238,8 +238,12 @@ def jobs_faults(tier, seed, want, names=None, sched=True, pairs=True, monitor_fs
             s2 = inline(scn(tr2, seed=seed, faults={'sites': FAULT_SITES_ALL}))
             jobs.append(job(f'seq fault x1 {name} size-provided', s2, 1, want, monitor_fs=monitor_fs))
     if sched:
-        snames = [n for n in names if n in ('up-mp-nonseekable', 'up-mp-path', 'dl-ranged-path',
+        snames = [n for n in names if n in ('up-mp-nonseekable', 'up-mp-path', 'dl-ranged-path', 'up-mp-seekable',
                                             'dl-ranged-nonseekable', 'copy-mp', 'dl-ranged-seekable')]
+        if 'up-mp-nonseekable' in names:
+            # a stream whose size the caller supplied: nothing is read before the upload is created
+            bt = dict(bt, **{'up-mp-nonseekable-psize': [T_up('nonseekable', 5, subs=[{'provide_size': True}])]})
+            snames.append('up-mp-nonseekable-psize')
         for name in snames:
             s = scn(copy.deepcopy(bt[name]), cfg(max_request_concurrency=2), seed=seed,
                     faults={'sites': ['s3:', 'stream:retryable', 'stream:fatal', 'fs:write', 'fs:rename', 'fs:close', 'src:read', 'sink:write']})
@@ -247,11 +251,29 @@ def jobs_faults(tier, seed, want, names=None, sched=True, pairs=True, monitor_fs
                 s.update(extra)
             jobs.append(job(f'sched fault {name}', s, BD(tier)['FAULT'], want,
                             monitor_fs=monitor_fs, max_execs=100000 if tier == 'quick' else 1000000))
+        # one fault of ONE family x two preemptions (a failure arriving while another request of
+        # the transfer is in flight needs the worker to be stopped inside that request and the
+        # failing thread to be resumed): affordable because the fault menu is a single family
+        for name in snames:
+            for fam in deep_sites:
+                s = scn(copy.deepcopy(bt[name]), cfg(max_request_concurrency=2), seed=seed, faults={'sites': [fam]})
+                if extra:
+                    s.update(extra)
+                jobs.append(job(f'sched2 fault {fam} {name}', s, {'sched': 2, 'env': 1}, want, monitor_fs=monitor_fs,
+                                max_execs=300000))
     return jobs
 
 
 def jobs_C03(tier, seed):
-    return jobs_faults(tier, seed, 'C03')
+    jobs = jobs_faults(tier, seed, 'C03')
+    # non-retryable failures that happen to be OSErrors (EIO from the stream, a subscriber raising
+    # PermissionError): the retryable family is the connection errors, not every OSError
+    bt = base_transfers()
+    for name in ('dl-single-path', 'dl-ranged-path', 'dl-ranged-nonseekable', 'dl-single-nonseekable', 'up-mp-path', 'copy-mp'):
+        s = inline(scn(copy.deepcopy(bt[name]), cfg(num_download_attempts=3), seed=seed,
+                       faults={'sites': ['stream:fatal', 'cb:progress', 'cb:queued'], 'fatal_kinds': ['read', 'oserror']}))
+        jobs.append(job(f'seq OSError-kind faults {name}', s, 1 if tier == 'quick' else 2, 'C03'))
+    return jobs
 
 
 def limit_settings():
@@ -335,7 +357,8 @@ def jobs_C04(tier, seed):
 def jobs_C05(tier, seed):
     want = 'C05'
     names = ['up-mp-path', 'up-mp-seekable', 'up-mp-nonseekable', 'copy-mp']
-    jobs = jobs_faults(tier, seed, want, names=names)
+    jobs = jobs_faults(tier, seed, want, names=names,
+                       deep_sites=('src:read', 's3:CreateMultipartUpload', 's3:UploadPart', 's3:CompleteMultipartUpload'))
     bt = base_transfers()
     for name in names:
         for conc in (2, 3):
@@ -434,6 +457,12 @@ def jobs_C08(tier, seed):
             tr2 = copy.deepcopy(tr)
             tr2[0]['subs'] = [{'provide_size': True}, {}]
             jobs.append(job(f'size-provided {name}', scn(tr2, seed=seed), 0, want, forced_cost=0, max_execs=2000))
+    # a supplied size of 0 is a supplied size too
+    for tr in ([T_dl('path', 'e0')], [T_dl('nonseekable', 'e0')], [T_cp('e0')]):
+        tr[0]['subs'] = [{'provide_size': True}, {}]
+        sc = scn(tr, seed=seed)
+        sc['objects'] = dict(OBJ, e0=0)
+        jobs.append(job(f'size-provided empty object {tr[0]["op"]} {tr[0].get("dst", "")}', sc, 0, want, forced_cost=0, max_execs=2000))
     for name in ('up-mp-nonseekable', 'dl-ranged-path', 'copy-mp'):
         tr = copy.deepcopy(bt[name])
         tr[0]['subs'] = copy.deepcopy(two)
